@@ -129,7 +129,7 @@ def brief(v, depth=0):
     return repr(v)[:200]
 
 
-def generic_replay(ob, timeout_ms=20000):
+def generic_replay(ob, timeout_ms=20000, model=None):
     """returns dict(confirmed, input, observed, predicted, note)"""
     cx = ob.meta.get("cx")
     if cx is None or getattr(cx, "initial", None) is None:
@@ -137,14 +137,15 @@ def generic_replay(ob, timeout_ms=20000):
     if getattr(cx, "applied_specs", None):
         return {"confirmed": False, "note": "unit calls functions through their contracts "
                 f"({sorted(set(cx.applied_specs))}); no generic native replay"}
-    s = z3.Solver()
-    s.set("timeout", timeout_ms)
-    for h in ob.hyps:
-        s.add(h)
-    s.add(z3.Not(ob.goal))
-    if s.check() != z3.sat:
-        return {"confirmed": False, "note": "model could not be re-derived in the replay process"}
-    model = s.model()
+    if model is None:
+        s = z3.Solver()
+        s.set("timeout", timeout_ms)
+        for h in ob.hyps:
+            s.add(h)
+        s.add(z3.Not(ob.goal))
+        if s.check() != z3.sat:
+            return {"confirmed": False, "note": "model could not be re-derived in the replay process"}
+        model = s.model()
     func = cx.unit.func
     try:
         memo = {}
